@@ -346,6 +346,43 @@ def class_facts(repo: Path) -> dict:
 	return f
 
 
+def reader_facts(repo: Path) -> dict:
+	"""`HDF5Signatures.__init__`: what is checked and what is read from where when a signature file is opened"""
+	f = dict.fromkeys(['marker', 'version', 'kmerspec', 'meta', 'datasets', 'ids', 'order'], False)
+	try:
+		tree = ast.parse((repo / 'src' / 'gambit' / 'sigs' / 'hdf5.py').read_text())
+		c = next(st for st in tree.body if isinstance(st, ast.ClassDef) and st.name == 'HDF5Signatures')
+		m = next(x for x in c.body if isinstance(x, ast.FunctionDef) and x.name == '__init__')
+	except Exception:
+		return f
+	body = _body(m)
+	t = [ast.unparse(st) for st in body]
+
+	def at(pred):
+		return next((i for i, st in enumerate(body) if pred(st, t[i])), None)
+	i_mark = at(lambda st, x: isinstance(st, ast.If) and ast.unparse(st.test) == 'FMT_VERSION_ATTR not in group.attrs' and not st.orelse
+	            and len(st.body) == 1 and isinstance(st.body[0], ast.Raise) and ast.unparse(st.body[0].exc.func) == 'SignaturesFileError')
+	i_ver_read = at(lambda st, x: x == 'self.format_version = group.attrs[FMT_VERSION_ATTR]')
+	i_ver = at(lambda st, x: isinstance(st, ast.If) and ast.unparse(st.test) == 'self.format_version != CURRENT_FMT_VERSION' and not st.orelse
+	           and len(st.body) == 1 and isinstance(st.body[0], ast.Raise))
+	i_ks = at(lambda st, x: x == "self.kmerspec = KmerSpec(group.attrs['kmerspec_k'], group.attrs['kmerspec_prefix'])")
+	i_meta = at(lambda st, x: x == 'self.meta = read_metadata(group)')
+	i_val = at(lambda st, x: x == "self.values = group['values']")
+	i_bnd = at(lambda st, x: x == "self.bounds = group['bounds']")
+	i_idsd = at(lambda st, x: x == "ids_data = group['ids']")
+	i_ids = at(lambda st, x: isinstance(st, ast.If) and ast.unparse(st.test) == "ids_data.dtype.kind == 'O'"
+	           and [ast.unparse(y) for y in st.body] == ['self.ids = ids_data.asstr()[:]'] and [ast.unparse(y) for y in st.orelse] == ['self.ids = ids_data[:]'])
+	f['marker'] = i_mark is not None
+	f['version'] = i_ver_read is not None and i_ver is not None and i_ver_read < i_ver
+	f['kmerspec'] = i_ks is not None
+	f['meta'] = i_meta is not None
+	f['datasets'] = i_val is not None and i_bnd is not None
+	f['ids'] = i_idsd is not None and i_ids is not None and i_idsd < i_ids
+	idx = [i_mark, i_ver_read, i_ver, i_ks]
+	f['order'] = all(i is not None for i in idx) and idx == sorted(idx) and t[0] == 'self.group = group' and i_mark == 1
+	return f
+
+
 def query_flow_facts(repo: Path) -> dict:
 	"""`gambit.query.query`: which distances each result item is made of"""
 	f = dict.fromkeys(['dists', 'rows', 'inputsChecked', 'noOtherStores', 'result'], False)
@@ -714,6 +751,23 @@ def regenerate(repo: Path, out_dir: Path) -> dict:
 		kp.write_text(ktext)
 	report['modules']['PyClassFacts'] = hashlib.sha1(ktext.encode()).hexdigest()[:12]
 	report['functions'].append('sigs/base.py, sigs/hdf5.py, util/indexing.py (method resolution of the collections, structural facts)')
+	# --- sigs/hdf5.py: what HDF5Signatures.__init__ checks and reads ------------------------------------------------------------------------
+	rf = reader_facts(repo)
+	RDOC = {'marker': 'a group without the format-marker attribute is refused with `SignaturesFileError`',
+	        'version': 'the format version is read from the marker attribute and anything but the current version is refused',
+	        'kmerspec': 'the k-mer parameters are `KmerSpec(attrs[\'kmerspec_k\'], attrs[\'kmerspec_prefix\'])` — the two attributes the writer sets',
+	        'meta': 'the metadata are `read_metadata(group)`',
+	        'datasets': '`values` and `bounds` are the datasets of these names (what the inherited indexing methods slice)',
+	        'ids': 'the IDs are the `ids` dataset, decoded to `str` when it is a string dataset, read as it is otherwise',
+	        'order': 'the marker is checked first (right after the group is stored), then the version, before anything else is read'}
+	rtext = ('/-\nGENERATED by harness/pytrace.py from src/gambit/sigs/hdf5.py — do not edit.\n'
+	         'Regenerated at the start of every check; `GambitV.Tie.PyHdf5Reader` proves them.\n-/\nnamespace GambitV.Gen\n\n'
+	         + ''.join(f'/-- {RDOC[k]} -/\ndef pyReader_{k} : Bool := {b(v)}\n' for k, v in rf.items()) + '\nend GambitV.Gen\n')
+	rp = out_dir / 'PyHdf5Reader.lean'
+	if not rp.exists() or rp.read_text() != rtext:
+		rp.write_text(rtext)
+	report['modules']['PyHdf5Reader'] = hashlib.sha1(rtext.encode()).hexdigest()[:12]
+	report['functions'].append('sigs/hdf5.py HDF5Signatures.__init__ (what is checked and read, structural facts)')
 	# --- which compiled functions the public names are ---------------------------------------------------------------------------------------
 	bf = binding_facts(repo)
 	BDOC = {'seqRevcomp': '`gambit.seq.revcomp` is `gambit._cython.kmers.revcomp` itself (imported at module level, bound by nothing else)',
